@@ -68,6 +68,7 @@ typedef struct
     int is_alpha_of;              /* how many machine images currently have it attached (model) */
     int has_alpha;                /* slot of attached alpha map or -1 (model) */
     uint64_t serial;              /* creation serial within the machine */
+    int tile;                     /* storage is a tile of a canvas shared with other machines: row padding is not ours */
 } mslot_t;
 
 typedef struct machine
@@ -134,6 +135,8 @@ long       machine_compare_slot (machine_t *a, machine_t *b, int slot);
 uint32_t   machine_pixmask (machine_t *m, int slot);
 int        machine_check_canaries (machine_t *m);
 void       machine_normalise_slot (machine_t *m, int slot);
+/* slot := bits image over caller-provided memory (a tile of a larger canvas); the machine does not own the storage */
+int        machine_adopt_tile (machine_t *m, int slot, int fmt_idx, int w, int h, uint8_t *first_pixel, int stride_bytes);
 
 /* snapshot / restore of the pixels of one slot */
 uint8_t   *machine_snapshot (machine_t *m, int slot);   /* malloc'ed copy (harness memory) */
